@@ -168,140 +168,6 @@ func runScenario(c *core.Ctx, sc scenario, seed int64) ([]any, error) {
 	return recs, nil
 }
 
-// directed replays the schedule TLC finds as the counterexample of
-// ReaderFilesOnDisk in ScorchDisk_mc_reader.cfg (DESIGN section 8, lead 8) on the real
-// code, once with a plain reader and once with an online copy holding the
-// never-persisted root epoch:
-//
-//	persist batches 1,2 (two file segments) -> park the persister after its
-//	next round -> batch 4 moves the root to an epoch the persister never takes
-//	-> reader / copy opens that root -> forced merge replaces its file segments
-//	-> release the persister: it persists the merged root and purges the old
-//	bolt epochs and then their files.
-//
-// With the copy the files are protected by copyScheduled; with the plain
-// reader nothing pins them (open known finding).
-func directed(c *core.Ctx, useCopy bool) ([]any, error) {
-	dir := filepath.Join(c.TempDir("c12d"), "idx")
-	defer os.RemoveAll(filepath.Dir(dir))
-	wl := sx.Workload{Name: "directed", Writers: 1, Safe: false, KVConfig: map[string]interface{}{"unsafe_batch": true}}
-	r, err := sx.Start(dir, wl, c.Seed, 0)
-	if err != nil {
-		return nil, err
-	}
-	closed := false
-	defer func() {
-		if !closed {
-			_ = r.Close()
-		}
-	}()
-	step := func(puts, dels []string) error {
-		_, err := r.Submit(sx.BatchSpec{W: 1, Puts: puts, Dels: dels})
-		return err
-	}
-	if err := step([]string{"a"}, nil); err != nil {
-		return nil, err
-	}
-	if !r.Quiesce(20 * time.Second) {
-		return nil, fmt.Errorf("directed: no quiescence after batch 1")
-	}
-	if err := step([]string{"b"}, nil); err != nil {
-		return nil, err
-	}
-	if !r.Quiesce(20 * time.Second) {
-		return nil, fmt.Errorf("directed: no quiescence after batch 2")
-	}
-	// park the persister after its next completed round
-	r.SetHolds([]sx.HoldRule{{Point: "persist.acked", Until: "Go", Count: 1, Timeout: 20 * time.Second, Prob: 1, Once: true},
-		{Point: "copy.file", Until: "Go2", Count: 1, Timeout: 20 * time.Second, Prob: 1, Once: true},
-		{Point: "copy.memfile", Until: "Go2", Count: 1, Timeout: 20 * time.Second, Prob: 1, Once: true}})
-	acks0 := r.Rec.Count("PersistAcked")
-	if err := step([]string{"c"}, nil); err != nil {
-		return nil, err
-	}
-	_ = acks0
-	if !waitParked(r, 10*time.Second) {
-		return nil, fmt.Errorf("directed: persister did not park after batch 3 (committed %d acked %d takes %d)", r.Rec.Count("PersistCommitted"), r.Rec.Count("PersistAcked"), r.Rec.Count("PersistTake"))
-	}
-	time.Sleep(5 * time.Millisecond) // let it reach the parking point
-	if err := step([]string{"d"}, nil); err != nil { // root moves to an epoch the parked persister never takes
-		return nil, err
-	}
-	var copyDone chan error
-	rid := 0
-	copies0 := r.Rec.Count("CopyOpen")
-	merges0 := r.Rec.Count("IntroMerge")
-	if useCopy {
-		copyDone = make(chan error, 1)
-		dest := filepath.Join(filepath.Dir(dir), "copy")
-		go func() {
-			cp := r.Idx.(bleve.IndexCopyable)
-			copyDone <- cp.CopyTo(bleve.FileSystemDirectory(dest))
-		}()
-		if !r.Rec.WaitCount("CopyOpen", copies0+1, 10*time.Second) {
-			return nil, fmt.Errorf("directed: copy did not start")
-		}
-		time.Sleep(2 * time.Millisecond)
-	} else {
-		if rid, err = r.OpenReader(); err != nil {
-			return nil, err
-		}
-	}
-	merged := make(chan error, 1)
-	go func() { merged <- r.ForceMerge() }()
-	if !r.Rec.WaitCount("IntroMerge", merges0+1, 10*time.Second) {
-		return nil, fmt.Errorf("directed: forced merge was not introduced")
-	}
-	purgesBefore := r.Rec.Count("PurgeEnd")
-	r.Rec.Emit("Go", nil) // release the persister
-	<-merged
-	deadline := time.Now().Add(10 * time.Second)
-	for r.Rec.Count("PurgeEnd") < purgesBefore+1 && time.Now().Before(deadline) {
-		time.Sleep(time.Millisecond)
-	}
-	t0 := time.Now()
-	q := r.Quiesce(10 * time.Second)
-	c.Logf("directed(copy=%v): quiesce=%v in %v; stats %v", useCopy, q, time.Since(t0), func() []any { m := r.Sc.StatsMap(); return []any{m["CurRootEpoch"], m["LastPersistedEpoch"], m["LastMergedEpoch"]} }())
-	r.Sample("directed")
-	r.SetHolds(nil)
-	if useCopy {
-		r.Rec.Emit("Go2", nil)
-		if err := <-copyDone; err != nil {
-			c.Violation("c12/copy-failed", fmt.Sprintf("directed: CopyTo failed although its files were scheduled: %v", err), map[string]any{"scenario": "directed-copy"})
-		}
-	} else {
-		r.CloseReader(rid)
-	}
-	r.SetHolds(nil)
-	closed = true
-	if err := r.Close(); err != nil {
-		return nil, err
-	}
-	var recs []any
-	for _, ev := range r.Rec.Events() {
-		if ev["ev"] == "Sample" {
-			recs = append(recs, map[string]any(ev))
-		}
-	}
-	return recs, nil
-}
-
-// waitParked waits until the persister sits in the hold at persist.acked: it
-// has committed but PersistAcked (recorded after the hold) has not appeared.
-func waitParked(r *sx.Run, timeout time.Duration) bool {
-	deadline := time.Now().Add(timeout)
-	for time.Now().Before(deadline) {
-		if r.Rec.Count("PersistCommitted") > r.Rec.Count("PersistAcked") {
-			time.Sleep(2 * time.Millisecond)
-			if r.Rec.Count("PersistCommitted") > r.Rec.Count("PersistAcked") {
-				return true
-			}
-		}
-		time.Sleep(200 * time.Microsecond)
-	}
-	return false
-}
-
 func run(c *core.Ctx) error {
 	c.SetRule("one evaluation = one consistent observation (bolt snapshots ∩ two reads, root, held readers, running copies vs directory listing) of a real disk scorch index taken while seeded workloads, readers, copies and forced merges run with pauses injected at the persist/merge/purge steps; plus one quiescent observation and one fd check per run. " +
 		"distinct_nontrivial = distinct (bolt epochs+files, disk listing, root files, reader files, copy files) observations in which some needed-file set is non-empty")
@@ -343,10 +209,14 @@ func run(c *core.Ctx) error {
 		}
 	}
 	for _, useCopy := range []bool{false, true} {
-		recs, err := directed(c, useCopy)
+		dres, err := sx.DirectedHeldEpoch(c.TempDir("c12d"), c.Seed, useCopy)
 		if err != nil {
 			return err
 		}
+		if dres.CopyErr != nil {
+			c.Violation("c12/copy-failed", fmt.Sprintf("directed: CopyTo failed although its files were scheduled: %v", dres.CopyErr), map[string]any{"scenario": "directed-copy"})
+		}
+		recs := dres.Samples
 		name := "directed-reader"
 		if useCopy {
 			name = "directed-copy"
